@@ -365,6 +365,10 @@ class Sym:
         if k == "Block":
             if n.get("expr") is not None and all(x.get("k") == "SLet" for x in n.get("stmts") or ()):
                 return s(n["expr"])
+            if n.get("expr") is not None and n.get("inlined_call"):
+                # the body of an expanded helper in value position: its value is the tail (its statements are effects, which
+                # effect rules find by walking the tree, not through the value normal form)
+                return s(n["expr"])
             return ("block", tuple(s(x) for x in n.get("stmts") or ()), s(n.get("expr")))
         if k == "SLet":
             return ("slet",)
@@ -508,8 +512,18 @@ def guards_of(target, root, sym):
                         out.append(("if", a, True))
                 elif k == "Binary" and p.get("op") == "||" and c is p.get("r"):
                     out.append(("if", sym(p["l"]), False))
-            return out
+            return [_unnot(x) for x in out]
     return None
+
+
+def _unnot(g):
+    """("if", !c, pol) -> ("if", c, !pol): one spelling per condition"""
+    if g[0] == "if" and isinstance(g[1], tuple):
+        c, pol = g[1], g[2]
+        while isinstance(c, tuple) and c and c[0] == "not":
+            c, pol = c[1], (not pol)
+        return ("if", c, pol) + tuple(g[3:])
+    return g
 
 
 def exit_condition(n, sym):
